@@ -33,6 +33,13 @@ func init() {
 			}
 			return
 		}
+		if v.Sub == "schemas-multi-source" {
+			var in kitInput
+			if json.Unmarshal(v.Input, &in) == nil && len(in.Items) == 2 {
+				c10SchemaMulti(c, s, in)
+			}
+			return
+		}
 		var in kitDoc
 		if json.Unmarshal(v.Input, &in) == nil {
 			c10Doc(c, s, in)
@@ -232,6 +239,44 @@ func c10Schema(c *explore.Ctx, s *explore.SubStats, in kitInput) {
 	}
 }
 
+// c10SchemaMulti loads base + items, every item as a source file of its own.
+func c10SchemaMulti(c *explore.Ctx, s *explore.SubStats, in kitInput) {
+	explore.Crumb(s.Name, fmt.Sprint(in.Items))
+	s.Executions++
+	srcs := func() []*ast.Source {
+		out := []*ast.Source{{Name: "base.graphql", Input: strings.Join(gen.KitBase, "\n")}}
+		for _, i := range in.Items {
+			out = append(out, &ast.Source{Name: fmt.Sprintf("item%d.graphql", i), Input: gen.KitMenu[i]})
+		}
+		return out
+	}
+	run := func() string {
+		var err error
+		var sch *ast.Schema
+		r := guarded(3_000_000, 5000, func() { sch, err = gqlparser.LoadSchema(srcs()...) })
+		if r.Panicked {
+			return "panic: " + r.PanicVal
+		}
+		if err == nil {
+			return "loaded\n" + schemaDump(sch)
+		}
+		return errSig(errToList(err))
+	}
+	base, pol, diff, runs := orderPolicies(run)
+	s.Transitions += int64(runs)
+	s.Validated++
+	if strings.HasPrefix(base, "loaded") {
+		s.Outcome("loaded")
+	} else {
+		s.Nontrivial++
+		s.Outcome("rejected")
+	}
+	if pol != "" {
+		c.Report(s, explore.Violation{Key: "nondet/load-map-order multi-source " + c10Template(base, diff), Input: explore.J(in), Rendered: gen.KitMenu[in.Items[0]] + "\n---\n" + gen.KitMenu[in.Items[1]],
+			Detail: "the result of loading several source files depends on map iteration order (" + pol + ")", Expected: base, Observed: diff})
+	}
+}
+
 // C10Digest: one digest over the error lists of every profile document and every kit type
 // system with ≤ 1 menu item, computed with whatever map order the running build has.
 func C10Digest() string {
@@ -288,6 +333,41 @@ func runC10(c *explore.Ctx) {
 			s.States++
 			c10Schema(c, s, kitInput{Items: append([]int{}, items...)})
 		})
+		s.WallS = time.Since(t0).Seconds()
+	}
+	// several sources: every definition starts at offset 0 of its own file, so nothing that
+	// orders by position can separate them
+	s = c.Sub("schemas-multi-source", fmt.Sprintf("every pair of menu items (quick: of the items that are rejected on their own) of %d, each item a source file of its own next to the base file × every map-order policy", len(gen.KitMenu)),
+		"the load error (message, file, location) or the loaded schema's canonical dump is identical under every policy", "type systems that are rejected")
+	if s != nil {
+		t0 := time.Now()
+		var cand []int
+		for i := range gen.KitMenu {
+			if c.Thorough() {
+				cand = append(cand, i)
+				continue
+			}
+			text := strings.Join(kitInput{Items: []int{i}}.defs(), "\n")
+			verifhook.OrderPolicy, verifhook.Perm = 0, nil
+			if _, err := gqlparser.LoadSchema(&ast.Source{Name: "kit.graphql", Input: text}); err != nil {
+				cand = append(cand, i)
+			}
+		}
+		idx := 0
+		for x := 0; x < len(cand) && s.Exhaustive; x++ {
+			for y := x + 1; y < len(cand); y++ {
+				idx++
+				if idx%c.NShards != c.Shard {
+					continue
+				}
+				if c.Expired() {
+					s.Cap("deadline")
+					break
+				}
+				s.States++
+				c10SchemaMulti(c, s, kitInput{Items: []int{cand[x], cand[y]}})
+			}
+		}
 		s.WallS = time.Since(t0).Seconds()
 	}
 	// fresh processes of the un-instrumented build
